@@ -94,11 +94,10 @@ def ws2dwcv(y, nodata, llas, robust, out, lopt):
                 r_arr = y - y_temp
 
                 # residuals of the cells that carry weight (missing cells are not residuals)
-                mad = np.median(
-                    np.abs(r_arr[w_temp != 0] - np.median(r_arr[w_temp != 0]))
-                )
-                # a zero MAD (more than half of the residuals equal) gives nothing to down-weight
-                if mad > 0:
+                r_sel = r_arr[w_temp != 0]
+                mad = np.median(np.abs(r_sel - np.median(r_sel)))
+                # a (numerically) zero MAD (more than half of the residuals equal) gives nothing to down-weight
+                if mad > 1e-10 * max(1.0, np.max(np.abs(r_sel))):
                     u_arr = r_arr / (1.4826 * mad * np.sqrt(1 - gamma.sum() / n))
 
                     r_weights = (1 - (u_arr / 4.685) ** 2) ** 2
